@@ -8,3 +8,61 @@ _NOTE = ("Trusted base: NumPy/SciPy reference semantics in vf/ref.py and the per
 claim("C07", "property-based testing: Hypothesis-generated and exhaustively enumerated (all N! orders, all ordered factorisations) cases vs NumPy transpose/reshape/squeeze oracle + inverse round trip",
       "Generated-input search: every permute/reshape/squeeze variant of tensor, sptensor, ktensor, ttensor is compared exactly with the NumPy index map on the denoted array; finite sub-spaces (all orders for N<=4, all factorisations of small element counts) are enumerated completely.",
       _NOTE, "DESIGN.md section 4 C07")
+
+claim("C01", "property-based testing: Hypothesis-generated conversions + exhaustive enumeration of every ordered mode split vs NumPy index-formula oracle (round trips)",
+      "Generated-input search over every conversion (dense<->sparse, Kruskal/Tucker/sum->dense, tensor<->tenmat, sptensor<->sptenmat, constructors, scipy inputs): each result is compared through the array it denotes with the array computed by NumPy from the case, plus reported shape/nnz/mode split; all ordered (rdims,cdims) partitions and the fc/bc/t conventions are enumerated for fixed shapes.",
+      _NOTE, "DESIGN.md section 4 C01")
+claim("C02", "property-based testing: generated holders x mode designations vs einsum/tensordot reference on the denoted array; exhaustive designation enumeration on fixed shapes",
+      "Generated-input search over ttv/ttm/mttkrp/mttkrps/ttt/ttsv/innerprod/norm/contract/collapse/scale/mask/reconstruct for every holder class and every way of designating modes; oracle = defining sum in NumPy, exact for integer-valued data and within a rigorous rounding bound otherwise; labels measure sparse/dense/scalar/empty result branches.",
+      _NOTE, "DESIGN.md section 4 C02")
+claim("C03", "property-based testing: exhaustive enumeration of all pairs of zero patterns (<=8 cells) x operators + Hypothesis sampling beyond, differential against NumPy ufuncs on the expanded arrays",
+      "Every operator (+ - * / and/or/xor/not, six comparisons) on sptensor x {scalar, tensor, sptensor}, both operand orders, is compared position by position (NaN-aware, exact) with the NumPy operator on the expanded arrays; small shapes are enumerated completely over pattern pairs, stored orders permuted.",
+      _NOTE, "DESIGN.md section 4 C03")
+claim("C04", "model-based property testing over generated operation histories: dense tensor, sparse tensor and a NumPy model driven in lockstep; enumeration of region keys",
+      "Histories of reads and writes (all key forms, growth in extent and order, zero assignment) are generated as concrete operation lists; after every step den(T)==den(S)==model, S well-formed, every read equals the model under rectangular semantics and leaves the object unchanged; single-operation cells and an exhaustive region-key enumeration localise failures.",
+      _NOTE, "DESIGN.md section 4 C04")
+claim("C05", "property-based testing: one cell per public operation (223), bit-exact operand snapshots + memory-sharing and write-through probes on results",
+      "For every public operation of the seven classes and the five algorithm entry points, on generated operands that favour view-returning paths: operands are bit-identical after the call, no result array shares memory with an operand array, and overwriting either side is invisible through the other; documented in-place operations may change only their receiver.",
+      _NOTE, "DESIGN.md section 4 C05")
+claim("C06", "metamorphic property testing: every public sparse operation re-run under all n! (n<=4) / sampled stored orders of each operand; well-formedness predicate on every sparse result",
+      "About 110 sparse operations are run on the same denoted operands stored in every order; all runs must return the same class, shape and values (raise/return included) and every sptensor/sptenmat returned must be well-formed with no explicit zero after combining/filtering operations; pairs of patterns are enumerated exhaustively on small shapes.",
+      _NOTE, "DESIGN.md section 4 C06")
+claim("C08", "property-based testing: generated Kruskal tensors x re-parameterisation arguments, einsum invariance oracle + normal-form predicates + exact round trips; generated histories of re-parameterisations",
+      "normalize/arrange/fixsigns/redistribute/extract/tovec/from_vector/tolist/update/+,-,*/score on generated Kruskal tensors (zero/negative weights, zero columns): the denoted array is unchanged within a rigorous bound (or is the documented sum/multiple), the promised normal form holds, round trips are exact; a history cell applies sequences of operations to one object and re-checks the round trips on every state reached.",
+      _NOTE, "DESIGN.md section 4 C08")
+claim("C09", "property-based testing of cp_als: generated low-rank+noise problems x options; recomputation oracle, truncated-run monotonicity, normal-equation residual, recording data wrapper",
+      "cp_als on tensor/sptensor/ttensor/sumtensor data with every kind of start, mode order, optimised-mode subset, tolerance, limit and printing interval: normal form, reported fit/residual recomputed from the returned model, monotone fit over truncated runs, least-squares stationarity of the last updated mode, iteration limit and stop rule, returned guess, unchanged operands, and the sequence of mttkrp requests seen by a duck-typed wrapper.",
+      _NOTE, "DESIGN.md section 4 C09")
+claim("C10", "property-based testing of hosvd / tucker_als: constructed spectra with tolerances placed on both sides of every rank-switch value; orthonormality, core relation and error-bound oracle; enumeration of switch values and rank vectors",
+      "hosvd (both truncation strategies, all mode orders, automatic and given ranks) and tucker_als (all starts, orders, limits): orthonormal factors, core = data times transposed factors, relative error <= tol for automatic ranks, exact requested ranks, reported fit recomputed, monotone fit over truncated runs.",
+      _NOTE, "DESIGN.md section 4 C10")
+claim("C11", "property-based testing of cp_apr (mu, pdnr, pqnr): generated count tensors with empty slices / zero fibres x option sets; independent recomputation of the Poisson log-likelihood",
+      "Each algorithm on dense and sparse count data with non-negative guesses (zero rows included): non-negative model of the requested rank/shape, reported objective equals the recomputed log-likelihood (-inf matched), KKT violations non-negative with one entry per outer iteration, iteration limit, at least as likely as the guess, operands unchanged.",
+      _NOTE, "DESIGN.md section 4 C11")
+claim("C12", "property-based testing: complex-step / Richardson differentiation oracle for the ten losses; tensor-level objective and gradients vs einsum definition and directional derivatives; differential mttkrps vs mttkrp and estimate vs evaluate",
+      "Every built-in loss's gradient is compared with the machine-accurate derivative of its function over its domain; fg.evaluate's objective and factor gradients are compared with the weighted sum of the loss and with directional derivatives of an independent objective; mttkrps equals per-mode mttkrp; the sampled estimator on all entries equals the exact evaluation.",
+      _NOTE, "DESIGN.md section 4 C12")
+claim("C13", "property-based testing of samplers and solvers + generated solve histories on one optimizer object compared with fresh objects (model-based); recording sampler wrapper",
+      "Samplers: subscripts in range, one value and weight per sample, values equal the data, weight totals; stochastic solvers: trace length, returned model is the best epoch on the recorded function sample, bounds respected; L-BFGS-B objective truthful and non-increasing; sequences of 2..4 solves on one object must equal fresh-object solves bit for bit.",
+      _NOTE, "DESIGN.md section 4 C13")
+claim("C14", "property-based testing: constructed spectra (well-separated eigenvalues) x every mode, count and holder; eigh-of-Gram-matrix oracle; enumeration of fixed models",
+      "nvecs of tensor/sptensor/ktensor/ttensor holders of the same array for every mode n and count r on both solver paths: shape, real dtype, orthonormal columns, eigen-residual in decreasing order, captured energy, projector equal to the reference projector (cross-holder agreement), sign normalisation.",
+      _NOTE, "DESIGN.md section 4 C14")
+claim("C15", "property-based testing + exhaustive enumeration of disjoint mode groupings for orders <=4; permutation-average oracle and exact invariance test, differential between the two implementations",
+      "symmetrize equals the mean over within-group transposes, is symmetric, idempotent and leaves symmetric input unchanged; issymmetric equals an exact invariance test for every grouping (proper subsets, several groups) and both versions agree; Kruskal symmetrize/issymmetric likewise.",
+      _NOTE, "DESIGN.md section 4 C15")
+claim("C16", "round-trip property testing over the full double range: export, independent parse of the file text, import, bit-level comparison; rewritten files with other index bases",
+      "tensor/sptensor/ktensor/matrix with values across the whole exponent range (subnormals, +-max, -0.0, 17-digit cases) are written, the file text is parsed by the harness (1-based subscripts, layout), read back and compared bit for bit including subscripts and their order; files rewritten with base 0/2/5 are read back with index_base.",
+      _NOTE, "DESIGN.md section 4 C16")
+claim("C17", "exhaustive enumeration (index spaces, all dims/exclude_dims/M combinations for N<=5, all pairs of small row lists) + Hypothesis sampling vs set-algebra / Kronecker reference",
+      "ind2sub/sub2ind are mutually inverse first-index-fastest bijections; tt_dimscheck returns sorted modes and multiplicand positions for every argument form; row membership/intersection/difference/union agree with set algebra on tuples including the pairing used by sptensor; khatrirao equals the column-wise Kronecker product.",
+      _NOTE, "DESIGN.md section 4 C17")
+claim("C18", "metamorphic property testing: pairs of runs of each decomposition algorithm from one generated problem (dense vs sparse, printing interval, same seed, positive scaling, mode relabelling)",
+      "23 relation cells over cp_als, cp_apr (3 variants), hosvd, tucker_als, gcp_opt/LBFGSB: the two runs must give the same model within 1e-7 relative (times c / transposed where applicable), equal fits and iteration counts; numerically unstable instances are detected by perturbation and labelled, not judged.",
+      _NOTE, "DESIGN.md section 4 C18")
+claim("C19", "negative property testing: table of 179 (operation, stated precondition, violation generator) rows with deliberately coincidental violations; oracle = raises + bit-exact operand snapshot",
+      "Each row applies exactly one violation of a precondition stated in the code or docstring (broadcastable mismatch, permuted same-count shape, vector sized for another mode, repeated mode, index equal to the bound, over-long permutation...) to otherwise valid generated operands; the call must raise and leave every operand bit-identical; valid control calls must be answered.",
+      _NOTE, "DESIGN.md section 4 C19")
+claim("C20", "property-based testing of generators and aggregating constructors vs direct NumPy / dictionary-aggregation oracles; enumeration of teneye orders and sizes",
+      "tenones/tenzeros/tenrand/tendiag/sptendiag/teneye/from_function for every accepted shape form; sptenrand / sptensor.from_function return well-formed tensors with exactly the requested number of distinct nonzeros, reproducibly under the seed; from_aggregator equals dictionary aggregation with each reducer and drops zero results.",
+      _NOTE, "DESIGN.md section 4 C20")
